@@ -54,6 +54,11 @@ local r = tail(%d) debug.sethook() emit("ps9", r, table.concat(seen, " ")) end`,
 	// traceback from inside nested calls and from a coroutine
 	`do local function a(n) if n == 0 then return (debug.traceback("tb", 1):gsub("0x%%x+", "PTR")) end return (a(n - 1)) end
 emit("ps10", a(%d %% 6), %d) end`,
+	// finalisers that only run when the runtime is closed (the values stay referenced): their order is
+	// fixed by the marking order, including re-marking, whatever the pool implementation
+	`do FIN = FIN or {} local function fz(tag) return {__gc = function(o) emit("fin", tag, o.id) end} end
+for i = 1, %d %% 5 + 2 do FIN[#FIN + 1] = setmetatable({id = i}, fz("a")) end
+local again = FIN[(%d %% #FIN) + 1] setmetatable(again, fz("b")) FIN[#FIN + 1] = setmetatable({id = 99}, fz("c")) emit("ps11", #FIN) end`,
 	// string building through pooled continuations
 	`local parts = {} for i = 1, %d %% 30 + 1 do parts[#parts + 1] = tostring(i):rep(2) end emit("ps8", table.concat(parts, "-"), %d)`,
 }
@@ -111,9 +116,9 @@ func runConf(ctx *core.RunCtx) {
 		out = h.Run("sim", src)
 	}
 	leak := s.Drain()
-	events := log.Events()
 	s.Reap(h.R.MainThread())
-	h.Close()
+	h.Close() // finalisers of values still referenced run here: part of the log
+	events := log.Events()
 	s.End()
 	st := s.Stats()
 	s.Release()
